@@ -3,15 +3,25 @@ import FimVerif.Proofs.Lemmas.StoreNidOps
 import FimVerif.Proofs.Lemmas.StoreMerge
 import FimVerif.Proofs.Lemmas.StoreRefineAll
 import FimVerif.Proofs.Lemmas.StoreMergeFrame
+import FimVerif.Proofs.Lemmas.ARefAll
+import FimVerif.Proofs.Lemmas.StoreDisjointClone
 /-!
 # C05 — in-memory graph backends agree with each other and with the documented semantics
 
 Models: `Model/Store.lean` (shared store), `Model/DStore.lean` (one graph per id; every inherited
 property-graph method *is* the shared-store method run on the sub-store of that id), `Model/AGraph.lean`
-(reference model of the documented interface).  Helper lemmas: `Proofs/Lemmas/Store*.lean`.
+(per-graph reference model of the documented interface), `Model/ARef.lean` (store-level reference model:
+node dictionaries and links between (GraphID, NodeID) keys; `merge_nodes`, `GraphID`/`NodeID` rewrites,
+imports, clones and `delete_all_graphs` are steps of it).  Helper lemmas: `Proofs/Lemmas/Store*.lean`,
+`Proofs/Lemmas/ARef*.lean`.
 -/
 namespace FimVerif.C05
 open FimVerif FimVerif.Store FimVerif.Gen.StoreConsts
+
+/-- the control-flow facts observed on the code by `gen/storeflow.py` are the ones the three models mirror (see
+    `C04.flow_is_modelled`; restated here because both backends' agreement rests on the allocator and lookup facts) -/
+theorem flow_is_modelled :
+    Gen.StoreFlow.flow = Store.modelFlow ∧ Gen.StoreFlow.gidFiltered = Store.modelFiltered := by decide
 
 /-! ## identity properties -/
 
@@ -303,5 +313,172 @@ theorem backends_agree (op : Op) (s : Store) (d : DStore.DStore) (hs : Store.Inv
   exact ⟨h1.1.trans h2.1.symm, h1.2.trans h2.2.symm⟩
 
 example : AGraph.covers (.addLink "g" "a" "has" "b" none) = true ∧ DStore.single (.unsetNodeProperty "g" "a" "p") = true := by decide
+
+/-! ## the shared store refines the store-level reference model — merges and key rewrites are steps of it
+
+`ARef` (Model/ARef.lean): the whole store as the interface shows it — node dictionaries and links between
+(GraphID, NodeID) keys; no internal ids, no allocator, no relabelling.  `Store.absS` forgets the internal
+ids of a store.  `RefS r r'` : same reply, and the reference state is `absS` of the resulting store. -/
+
+/-- **store_refines_reference.**  One call on the shared store is one call of the reference model, for *every*
+    operation: single, bulk and whole-graph updates **including writes of `GraphID` and `NodeID`** (re-homing,
+    re-keying: what `update_node_property(GraphID/NodeID, …)` really does — the links follow the node), initial
+    properties naming them, unsets, links (also a link of a node to itself), listings, imports of any graph, re-imports,
+    direct imports, clones (also onto an existing id or onto itself), `delete_graph`, `delete_all_graphs`, and
+    `merge_nodes` with any policy (self-links of the absorbed node, links to nodes of third graphs, policies on
+    `GraphID`/`NodeID`/`Class`, a graph merged with itself).  Same reply — value or error kind — and the same nodes and
+    links afterwards, whether the call succeeds or fails.  Only `merge_nodes` needs the (GraphID, NodeID) keys of the
+    stored nodes to be pairwise distinct (`UniqueKeys`: otherwise "the neighbour with key k" is not one node). -/
+theorem store_refines_reference (op : Op) (s : Store) (h : Store.Inv s) (hu : op.isMerge = true → UniqueKeys s) :
+    (Store.step op s).1 = (ARef.step op (absS s)).1 ∧ absS (Store.step op s).2 = (ARef.step op (absS s)).2 :=
+  Store.refines_store_step op s h hu
+
+/-- `UniqueKeys` is an invariant of every history whose operations keep the keys (`Op.keepsKeys`: no `GraphID`/`NodeID`
+    write, imports with pairwise distinct node ids; merges with any other policy included) -/
+theorem unique_keys_reachable (ops : List Op) (hk : ∀ o ∈ ops, o.keepsKeys = true) : UniqueKeys (Store.run ops Store.init) :=
+  Store.uniqueKeys_run ops _ Store.inv_init Store.uniqueKeys_init hk
+
+/-- **store_refines_reference_history.**  After any history of key-keeping operations — merges included — the shared
+    store is exactly the state the reference model reaches, and *whatever* operation comes next (a key rewrite, a merge,
+    an import with repeated ids) is answered and executed as the reference model does. -/
+theorem store_refines_reference_history (ops : List Op) (hk : ∀ o ∈ ops, o.keepsKeys = true) :
+    absS (Store.run ops Store.init) = ARef.run ops ARef.init ∧
+    ∀ op, (Store.step op (Store.run ops Store.init)).1 = (ARef.step op (ARef.run ops ARef.init)).1 ∧
+          absS (Store.step op (Store.run ops Store.init)).2 = (ARef.step op (ARef.run ops ARef.init)).2 := by
+  have h1 := Store.refines_store_run ops Store.init Store.inv_init Store.uniqueKeys_init hk
+  rw [Store.absS_init] at h1
+  refine ⟨h1, fun op => ?_⟩
+  rw [← h1]
+  exact store_refines_reference op _ (C05_inv_run ops) (fun _ => unique_keys_reachable ops hk)
+where
+  C05_inv_run (ops : List Op) : Store.Inv (Store.run ops Store.init) := by
+    suffices ∀ s, Store.Inv s → Store.Inv (Store.run ops s) from this _ Store.inv_init
+    induction ops with
+    | nil => intro s h; exact h
+    | cons o r ih => intro s h; simp only [Store.run, List.foldl_cons]; exact ih _ (Store.inv_step o s h)
+
+-- non-vacuity: a history with a merge whose policy combines a property, and the hypothesis of the step theorem
+example : ∀ o ∈ [Op.addNode "g1" "n" "Link" (some [("Name", .str "x")]), Op.addNode "g2" "n" "Link" none,
+    Op.addLink "g2" "n" "has" "n" none, Op.mergeNodes "g1" "n" "g2" (some [("Name", .combine)])], o.keepsKeys = true := by decide
+example : UniqueKeys ⟨[⟨1, [("GraphID", .str "g1"), ("NodeID", .str "n")]⟩, ⟨2, [("GraphID", .str "g2"), ("NodeID", .str "n")]⟩], [], 3⟩ := by
+  unfold UniqueKeys; decide
+
+/-- the per-graph content read off the reference state is the per-graph content of the store: the two reference
+    models speak of the same thing -/
+theorem view_absS (s : Store) (h : Store.Inv s) (g : String) : ARef.view (absS s) g = Store.abs s g := by
+  unfold ARef.view Store.abs Store.absView
+  rw [Store.nodesOf_absS, Store.absS_edges_filter_kIn s h g]
+  simp only [List.map_map]
+  congr 1
+  apply List.map_congr_left
+  intro e he
+  simp only [Function.comp]
+  simp only [edgesOf, List.mem_filter, Bool.and_eq_true] at he
+  have hnd : ((nodesOf s g).map (·.iid)).Nodup := by
+    unfold nodesOf
+    exact List.Nodup.sublist (List.Sublist.map _ List.filter_sublist) h.1
+  have key : ∀ i, idIn (nodesOf s g) i = true → (keyOf s.nodes i).2 = nidOf (nodesOf s g) i := by
+    intro i hi
+    obtain ⟨m, hm, em⟩ := (Store.idIn_iff _ _).1 hi
+    have hms : m ∈ s.nodes := (List.mem_filter.1 hm).1
+    rw [← em, Store.keyOf_mem s h m hms]
+    unfold nidOf
+    rw [Store.find_iid_of_nodup _ hnd m hm]
+    rfl
+  rw [key _ he.2.1, key _ he.2.2]
+
+/-- in particular, after a key-keeping history with merges, every graph's observable content is what the reference
+    model says -/
+theorem content_after_history (ops : List Op) (hk : ∀ o ∈ ops, o.keepsKeys = true) (g : String) :
+    Store.abs (Store.run ops Store.init) g = ARef.view (ARef.run ops ARef.init) g := by
+  rw [← (store_refines_reference_history ops hk).1]
+  exact (view_absS _ (store_refines_reference_history.C05_inv_run ops) g).symm
+
+/-! ## what the API lets a caller do to the keys (known findings) -/
+
+/-- Full statement ("a node id is unique within its graph", for every operation) fails: `NodeID` is an ordinary
+    writable property.  Known findings `C05:nid_unique:<op>:NodeID-rewritten` / `…:GraphID-rewritten`. -/
+theorem nid_unique_rewrite_counterexample :
+    ∃ (ops : List Op) (op : Op) (g : String), (∀ o ∈ ops, o.keepsKeys = true) ∧
+      (∀ g', UniqueNid (Store.run ops Store.init) g') ∧ ¬ UniqueNid (Store.step op (Store.run ops Store.init)).2 g := by
+  refine ⟨[.addNode "g" "a" "Link" none, .addNode "g" "b" "Link" none], .updateNodeProperty "g" "a" "NodeID" (.str "b"), "g",
+    by decide, nid_unique_reachable _ (by decide), ?_⟩
+  have : (nodesOf (Store.step (.updateNodeProperty "g" "a" "NodeID" (.str "b"))
+      (Store.run [.addNode "g" "a" "Link" none, .addNode "g" "b" "Link" none] Store.init)).2 "g").map nidA =
+      [some (.str "b"), some (.str "b")] := by rfl
+  unfold UniqueNid
+  rw [this]
+  simp
+
+/-- Full statement ("the two backends return the same results for every operation sequence") fails once a node is
+    re-homed by writing `GraphID`: the shared store shows it in the named graph, the one-graph-per-id store keeps it in
+    its old container where no lookup finds it.  Known findings `C05:backends:<op>:GraphID-rewritten`. -/
+theorem backends_diverge_on_rehoming_counterexample :
+    ∃ (ops : List Op) (q : Op),
+      (Store.step q (Store.run ops Store.init)).1 = .ok (.vals [some (.str "a")]) ∧
+      (DStore.step q (DStore.run ops DStore.init)).1 = .error .query := by
+  refine ⟨[.addNode "g1" "a" "Link" none, .updateNodeProperty "g1" "a" "GraphID" (.str "g2")], .listAllNodeIds "g2", ?_, ?_⟩
+  · rfl
+  · rfl
+
+/-- on the one-graph-per-id store every container behaves as a reference store of its own, for every inherited
+    property-graph method and every value — key rewrites included (a re-homed node stays in its container): no
+    `keepsKeys` hypothesis -/
+theorem disjoint_container_refines_reference (op : Op) (d : DStore.DStore) (h : DStore.Inv d)
+    (hl : DStore.step op d = DStore.lift op.target (Store.step op) d) (hm : op.isMerge = false) :
+    (DStore.step op d).1 = (ARef.step op (absS (DStore.sub d op.target))).1 ∧
+    absS (DStore.sub (DStore.step op d).2 op.target) = (ARef.step op (absS (DStore.sub d op.target))).2 := by
+  have := store_refines_reference op (DStore.sub d op.target) (h _) (by simp [hm])
+  rw [hl]
+  simp only [DStore.lift, DStore.sub_put_eq]
+  exact this
+
+example (d : DStore.DStore) : DStore.step (.updateNodeProperty "g" "n" "GraphID" (.str "h")) d =
+    DStore.lift "g" (Store.step (.updateNodeProperty "g" "n" "GraphID" (.str "h"))) d := rfl
+
+/-- `find_matching_nodes` on the one-graph-per-id store answers what the reference interface says, given the content of
+    both graphs (`Homed d other`: every node in the other container carries that graph's id — true in every state reached
+    without `GraphID` writes, `C04.dhomed_reachable`), and changes nothing -/
+theorem disjoint_find_matching_refines (d : DStore.DStore) (g other : String) (hh : DStore.Homed d other) :
+    (DStore.step (.findMatchingNodes g other) d).1 =
+      (AGraph.step (.findMatchingNodes g other) (DStore.abs d other) (DStore.abs d g)).1 ∧
+    (DStore.step (.findMatchingNodes g other) d).2 = d := by
+  simp only [DStore.step, DStore.findMatchingNodes, AGraph.step, AGraph.findMatchingNodes, DStore.abs]
+  have h1 := Store.listAll_fst (DStore.sub d g) g
+  have e2 : (Store.abs (DStore.sub d other) other).nodes.map (AMap.get nodeId) =
+      (DStore.sub d other).nodes.map (fun n => AMap.get nodeId n.attrs) := by
+    rw [Store.abs_nodes, DStore.nodesOf_homed _ other hh]
+    simp [List.map_map, Function.comp, Store.eraseG, AMap.get_erase_ne _ _ _ Store.nodeId_ne_graphId]
+  rw [e2]
+  generalize hr : listAllNodeIds g (DStore.sub d g) = r at h1
+  generalize hr' : AGraph.listAllNodeIds (Store.abs (DStore.sub d g) g) = r' at h1
+  obtain ⟨r1, r2⟩ := r
+  obtain ⟨r1', r2'⟩ := r'
+  simp only at h1
+  subst h1
+  cases r1' with
+  | error e => exact ⟨rfl, rfl⟩
+  | ok o =>
+    cases o with
+    | vals mine =>
+      simp only
+      cases fmnErr mine (List.map (fun n => AMap.get nodeId n.attrs) (DStore.sub d other).nodes) with
+      | some e => exact ⟨rfl, rfl⟩
+      | none => exact ⟨rfl, rfl⟩
+    | unit => exact ⟨rfl, rfl⟩
+    | bool b => exact ⟨rfl, rfl⟩
+    | nodeProps l p => exact ⟨rfl, rfl⟩
+    | linkProps l p => exact ⟨rfl, rfl⟩
+    | int n => exact ⟨rfl, rfl⟩
+
+/-- … hence the two backends agree on `find_matching_nodes` whenever both graphs have the same content in both stores -/
+theorem backends_agree_find_matching (s : Store) (d : DStore.DStore) (g other : String) (hh : DStore.Homed d other)
+    (h1 : Store.abs s g = DStore.abs d g) (h2 : Store.abs s other = DStore.abs d other) :
+    outAbs (Store.step (.findMatchingNodes g other) s).1 = (DStore.step (.findMatchingNodes g other) d).1 := by
+  have a := (Store.ref_findMatchingNodes s g other).1
+  have b := (disjoint_find_matching_refines d g other hh).1
+  simp only [AGraph.step] at b
+  rw [b, ← h1, ← h2, ← a]
+  rfl
 
 end FimVerif.C05
